@@ -653,9 +653,11 @@ func (fr *Frame) callbackLoop(st *State, cl *Closure, pname string, env *SpecEnv
 	}
 	mods := nf.loopModifies(all)
 	x.bumpAllocTop(st)
-	ne := x.vc.fresh("events", sInt)
-	x.vc.assume(tCmp(">=", ne, st.events))
-	st.events = ne
+	if mods.events || mods.all {
+		ne := x.vc.fresh("events", sInt)
+		x.vc.assume(tCmp(">=", ne, st.events))
+		st.events = ne
+	}
 	if mods.all {
 		x.havocAllHeaps(st)
 	} else {
